@@ -114,12 +114,18 @@ type World struct {
 	// identifiers of entities that were created only inside discarded branches (speculative steps): as far as
 	// state is concerned they never existed, and later messages sometimes name them
 	phCreditTypes, phClasses, phProjects, phBatches, phBaskets []string
-	collPair int // 1 + index of the history's colliding pair, 0 = not drawn yet
-	inBranch                                                    bool   // inside a speculative (discarded) branch
-	brNew                                                       idSets // what the branch has created so far
+	phBatchInfo                                                []phBatch // project and dates of batches issued only inside discarded branches
+	collPair                                                   int       // 1 + index of the history's colliding pair, 0 = not drawn yet
+	inBranch                                                   bool      // inside a speculative (discarded) branch
+	brNew                                                      idSets    // what the branch has created so far
 }
 
 type originRef struct{ ID, Source, Contract string }
+
+type phBatch struct {
+	Denom, ProjectID string
+	Start, End       time.Time
+}
 
 // NewWorld builds a chain from the genesis spec and opens the first block.
 func NewWorld(t *rapid.T, g GenesisSpec, prof *Profile, fail FailFunc, mons ...Monitor) *World {
